@@ -60,6 +60,7 @@ _SAFE_CALLS = {"tuple": tuple, "list": list, "len": len, "sum": sum,
                "reversed": lambda x: list(reversed(x)),
                "enumerate": lambda x, *a: list(enumerate(x, *a)),
                "set": set, "frozenset": frozenset, "bool": bool,
+               "any": any, "all": all, "divmod": divmod, "round": round,
                "zip": lambda *a: list(zip(*a))}
 
 
